@@ -65,6 +65,7 @@ fn cfg_classes(sc: &Scenario, info: &mut CaseInfo) {
                 crate::rt::Policy::Pct { change, .. } => format!("pct(d={})", change.len()),
                 crate::rt::Policy::Trace(_) => "trace".to_string(),
                 crate::rt::Policy::Stall { .. } => "stall_at_dereference".to_string(),
+                crate::rt::Policy::StallCall { .. } => "stall_inside_a_call".to_string(),
                 crate::rt::Policy::Deviate(d) => format!("systematic(deviations={})", d.len()),
             }
         ));
